@@ -15,6 +15,7 @@
 import copy
 import itertools
 import json
+import os
 from pathlib import Path
 
 from vlib import coqprint as cp
@@ -119,7 +120,17 @@ def section_grants(sec, user, owner, ot, op):
     return perm_grants(ops[op], user, owner)
 
 
+class MultiP(dict):
+    """Several candidate definitions per policy name (the files currently on disk that define it; which of them is in
+    force is C18's business): something is granted when SOME candidate grants it."""
+    def __init__(self, alts):
+        dict.__init__(self)
+        self.alts = alts
+
+
 def granted_spec(P, pn, user, groups, owner, ot, op):
+    if isinstance(P, MultiP):
+        return any(granted_spec({pn: b}, pn, user, groups, owner, ot, op) for b in P.alts.get(pn, []))
     b = P.get(pn)
     if not isinstance(b, dict):
         return False                  # missing policy
@@ -1179,9 +1190,257 @@ def document_cases(ctx, eng):
             ctx.disagreement('documents', {'policy_document': meta[i][1], 'note': out[:300]})
 
 
+# ============================================================================ K(c): the policy store fed by the directory monitor
+MON_NAMES = ['X', 'Y', 'Z']
+MON_FILES = ['a.json', 'b.json', 'c.json']
+MON_TYPES = [OT.SYMMETRIC_KEY, OT.CERTIFICATE]
+MON_OPS = [OP.GET, OP.GET_ATTRIBUTES, OP.LOCATE, OP.DESTROY, OP.MODIFY_ATTRIBUTE]
+MON_IDENTS = [('alice', None), ('bob', None), ('bob', ['G1'])]
+
+
+def mon_section(kind):
+    perm = {'open': 'ALLOW_ALL', 'strict': 'ALLOW_OWNER', 'closed': 'DISALLOW_ALL'}[kind]
+    return {'preset': {t.name: {op.name: perm for op in MON_OPS + [OP.ACTIVATE, OP.REVOKE, OP.GET_ATTRIBUTE_LIST]} for t in MON_TYPES}}
+
+
+class MonitorRig:
+    """A policy directory, the real PolicyDirectoryMonitor (scans driven by hand) and a real engine sharing its store."""
+    def __init__(self, ctx, shared_engine=None):
+        import signal
+        import tempfile
+        from kmip.services.server import monitor as monitor_mod
+        self.dir = Path(tempfile.mkdtemp(prefix='policies_', dir=str(ctx.work)))
+        self.store = copy.deepcopy(core_policy.policies)
+        self.builtin = copy.deepcopy(core_policy.policies)
+        old = (signal.getsignal(signal.SIGINT), signal.getsignal(signal.SIGTERM))
+        try:
+            self.mon = monitor_mod.PolicyDirectoryMonitor(str(self.dir), self.store, live_monitoring=False)
+        finally:
+            signal.signal(signal.SIGINT, old[0])
+            signal.signal(signal.SIGTERM, old[1])
+        self.mon.logger.setLevel(100)
+        self.clock = 1000
+        self.docs = {}                     # file name -> document currently on disk
+        self.shared = shared_engine is not None
+        if self.shared:                    # decision probes only: one engine object serves every rig, pointed at this store
+            self.eng = shared_engine
+            self.eng.engine._operation_policies = self.store
+        else:
+            self.eng = kdrv.Engine(policies=self.store, workdir=ctx.work)
+        self.real = self.eng.engine
+
+    def apply(self, ev):
+        kind, f = ev[0], ev[1]
+        path = self.dir / f
+        if kind == 'write':
+            self.clock += 10
+            path.write_text(json.dumps(ev[2], indent=1))
+            os.utime(str(path), (self.clock, self.clock))
+            self.docs[f] = ev[2]
+        elif kind == 'remove':
+            if path.exists():
+                path.unlink()
+            self.docs.pop(f, None)
+
+    def scan(self):
+        self.mon.scan_policies()
+
+    def candidates(self):
+        alts = {n: [b] for n, b in self.builtin.items()}
+        for f, doc in self.docs.items():
+            for n, b in doc_to_policies(doc).items():
+                if n not in self.builtin:            # reserved names cannot be redefined by files
+                    alts.setdefault(n, []).append(b)
+        return MultiP(alts)
+
+    def close(self):
+        import shutil
+        if not self.shared:
+            self.eng.close()
+        shutil.rmtree(str(self.dir), ignore_errors=True)
+
+
+def mon_probe_decisions(rig, names, light=False):
+    """-> list of violations (detail dicts): the engine allows what no document on disk (nor the built-in policy) grants"""
+    P = rig.candidates()
+    out = []
+    for pn in names:
+        for ot in (MON_TYPES[:1] if light else MON_TYPES):
+            for op in (MON_OPS[:1] + MON_OPS[3:4] if light else MON_OPS):
+                for user, groups in (MON_IDENTS[:2] if light else MON_IDENTS):
+                    if rig.real._is_allowed_by_operation_policy(pn, (user, groups), 'alice', ot, op) and \
+                            not granted_spec(P, pn, user, groups, 'alice', ot, op):
+                        out.append({'policy_name': pn, 'identity': [user, groups], 'owner': 'alice', 'object_type': ot.name, 'operation': op.name,
+                                    'defined_on_disk_by': sorted(f for f, d in rig.docs.items() if pn in d and d[pn])})
+    return out
+
+
+def run_monitor_history(ctx, scans, engine_probes=False, want_case=False, shared_engine=None):
+    """scans: list of event lists (each followed by one scan_policies()).  -> (violations, coq cases)"""
+    rig = MonitorRig(ctx, shared_engine=(None if engine_probes else shared_engine))
+    viol, cases = [], []
+    try:
+        uids = {}
+        if engine_probes:
+            # alice's objects under every name, created before any file exists (the name is just text on the object)
+            for n in MON_NAMES:
+                r = rig.eng.request([kdrv.create(mask=MASK, extra=pol_attr(n))], user='alice')
+                uids[n] = kdrv.first_uid(r['items'][0])
+            ref = rig.eng.request([kdrv.get(NEVER)])['items'][0]
+            notfound_tpl = ref['message']
+            links = schema_links(rig.eng.path)
+        for si, events in enumerate(scans):
+            for ev in events:
+                rig.apply(ev)
+            rig.scan()
+            ctx.count('monitor.scans')
+            for d in mon_probe_decisions(rig, MON_NAMES + ['default'], light=not engine_probes):
+                viol.append(({'class': 'monitor', 'fails': 'stale-policy', 'site': 'decision'}, dict(d, after_scan=si),
+                             'after scan %d the engine allows %s on %s for %r under policy %s, which %s' % (
+                                 si, d['operation'], d['object_type'], tuple(d['identity']), d['policy_name'],
+                                 'no file on disk defines' if not d['defined_on_disk_by'] else 'no definition on disk (%s) grants' % ', '.join(d['defined_on_disk_by']))))
+                break
+            if want_case:
+                store = {n: b for n, b in rig.store.items() if n not in rig.builtin}
+                cases.append('(%s, %s)' % (cp.lst(list(rig.docs.values()), c_document), c_policies(store)))
+                for n in rig.builtin:
+                    if rig.store.get(n) != rig.builtin[n]:
+                        viol.append(({'class': 'monitor', 'fails': 'reserved-policy-changed'}, {'policy_name': n, 'after_scan': si},
+                                     'the reserved policy %s is no longer the built-in one' % n))
+            if engine_probes:
+                P = rig.candidates()
+                for user, groups in (('bob', None), ('alice', None)):
+                    for n in MON_NAMES:
+                        kinds = ['get', 'get_attributes', 'locate'] + (['destroy'] if (si == len(scans) - 1 and user == 'bob') else [])
+                        for k in kinds:
+                            it = {'k': 'locate', 'type': None} if k == 'locate' else {'k': k, 'uid': uids[n]}
+                            step = {'user': user, 'groups': groups, 'version': [1, 2], 'cont': False, 'items': [it]}
+                            dump0 = rig.eng.dump()
+                            resp = rig.eng.request([build_item(it, (1, 2))], user=user, groups=groups)
+                            dump1 = rig.eng.dump()
+                            oracle_request(ctx, rig.eng, P, step, resp, rows_of(dump0), dump0, dump1, notfound_tpl,
+                                           lambda sig, detail, what: viol.append((dict(sig, **{'class': 'monitor'}), dict(detail, after_scan=si), what)),
+                                           lambda u, row: False, links)
+                            ctx.count('monitor.probe.%s.%s' % (k, 'success' if resp['items'][0]['status'] == 'SUCCESS' else 'refused'))
+    finally:
+        rig.close()
+    return viol, cases
+
+
+def monitor_scenarios():
+    """named multi-file situations: two files defining the same name, edit-out / remove in every order"""
+    O, S = mon_section('open'), mon_section('strict')
+    def w(f, **names):
+        return ('write', f, dict(names))
+    return {
+        'override-then-edit-out-then-remove': [[w('a.json', X=O)], [w('b.json', X=S)], [w('a.json', Y=S)], [('remove', 'b.json')]],
+        'override-then-edit-out-then-drop': [[w('a.json', X=O)], [w('b.json', X=S)], [w('a.json', Y=S)], [w('b.json', Z=S)]],
+        'override-then-remove-both': [[w('a.json', X=O)], [w('b.json', X=S)], [('remove', 'a.json')], [('remove', 'b.json')]],
+        'override-remove-newer': [[w('a.json', X=O)], [w('b.json', X=S)], [('remove', 'b.json')], [('remove', 'a.json')]],
+        'same-scan-two-files': [[w('a.json', X=O), w('b.json', X=S)], [w('a.json', Y=S), ('remove', 'b.json')]],
+        'edit-out-and-remove-same-scan': [[w('a.json', X=O)], [w('b.json', X=S)], [w('a.json', Y=S), ('remove', 'b.json')]],
+        'three-files': [[w('a.json', X=O)], [w('b.json', X=S)], [w('c.json', X=O)], [w('a.json', Y=O)], [('remove', 'c.json')], [('remove', 'b.json')]],
+        'redefine-after-edit-out': [[w('a.json', X=O)], [w('b.json', X=S)], [w('a.json', Y=S)], [w('a.json', X=O, Y=S)], [('remove', 'b.json')], [w('a.json', Y=S)]],
+        'empty-body': [[w('a.json', X=O)], [w('a.json', X={})], [('remove', 'a.json')]],
+        'reserved-name': [[w('a.json', default=O, X=S)], [('remove', 'a.json')]],
+    }
+
+
+def monitor_enumeration(depth):
+    """every sequence of `depth` single events over two files and one name (one event per scan)"""
+    O, S = mon_section('open'), mon_section('strict')
+    ops = [('write', 'a.json', {'X': O}), ('write', 'a.json', {'Y': S}), ('remove', 'a.json'),
+           ('write', 'b.json', {'X': S}), ('write', 'b.json', {'Z': S}), ('remove', 'b.json')]
+    for seq in itertools.product(range(len(ops)), repeat=depth):
+        yield [[ops[k]] for k in seq]
+
+
+def random_monitor_history(rng, n_scans):
+    scans = []
+    for _ in range(n_scans):
+        events = []
+        for _ in range(rng.choice([1, 1, 1, 2, 3])):
+            f = rng.choice(MON_FILES)
+            if rng.random() < 0.3:
+                events.append(('remove', f))
+            else:
+                doc = {}
+                for n in MON_NAMES:
+                    if rng.random() < 0.45:
+                        doc[n] = rng.choice([mon_section('open'), mon_section('strict'), mon_section('closed'), {}])
+                events.append(('write', f, doc))
+        scans.append(events)
+    return scans
+
+
+HEADER_D = ('From Coq Require Import String ZArith List Bool.\n'
+            'From PK Require Import Policy.Policy Policy.PolicyFile.\n'
+            'From PKGen Require Import DefaultPolicies.\n'
+            'Import ListNotations.\nOpen Scope Z_scope.\nOpen Scope string_scope.\n')
+
+
+def monitor_histories(ctx):
+    quick = ctx.tier == 'quick'
+    rng = ctx.subrng('monitor')
+    cases, metas = [], []
+    reported = set()
+
+    def handle(label, scans, viol):
+        for sig, detail, what in viol:
+            key = json.dumps(sig, sort_keys=True)
+            if key in reported:
+                continue
+            reported.add(key)
+            ctx.violation(sig, {'kind': 'monitor', 'scenario': label, 'scans': scans, 'detail': detail,
+                                'how_to_replay': 'bin/check C03 --replay <this file>: empty policy directory, real PolicyDirectoryMonitor and engine sharing one '
+                                                 'policy store; apply the events of each scan (write = write the document to the file, remove = delete the file), '
+                                                 'call scan_policies(), then probe the decision / issue the requests'},
+                          what)
+    for label, scans in monitor_scenarios().items():
+        viol, cs = run_monitor_history(ctx, scans, engine_probes=True, want_case=True)
+        cases += cs
+        metas += [(label, k) for k in range(len(cs))]
+        handle(label, scans, viol)
+    for k in range(8 if quick else 40):
+        scans = random_monitor_history(rng, 8 if quick else 14)
+        viol, cs = run_monitor_history(ctx, scans, engine_probes=True, want_case=True)
+        cases += cs
+        metas += [('random-%d' % k, j) for j in range(len(cs))]
+        handle('random-%d' % k, scans, viol)
+    n = 0
+    shared = kdrv.Engine(workdir=ctx.work)
+    try:
+        for scans in monitor_enumeration(4 if quick else 5):
+            n += 1
+            viol, cs = run_monitor_history(ctx, scans, engine_probes=False, want_case=(n % 25 == 0), shared_engine=shared)
+            cases += cs
+            metas += [('enumeration-%d' % n, j) for j in range(len(cs))]
+            handle('enumeration-%d' % n, scans, viol)
+    finally:
+        shared.close()
+    ctx.count('monitor.histories', n + len(monitor_scenarios()) + (8 if quick else 40))
+    bad = ctx.run_cases('monitor_store', HEADER_D, cases, 'check_store default_policies', shard=150,
+                        what='from_disk_b (Policy/PolicyFile.v): every entry of the policy store observed after a scan of the real PolicyDirectoryMonitor '
+                             'is what load_document builds from a document on disk at that moment (hypothesis of store_from_disk_sound)')
+    for i in bad[:5]:
+        ctx.disagreement('monitor_store', {'scenario': metas[i][0], 'scan': metas[i][1], 'case': cases[i][:1200]})
+
+
+def replay_monitor(ctx, w):
+    scans = [[tuple(ev) for ev in events] for events in w['scans']]
+    viol, _ = run_monitor_history(ctx, scans, engine_probes=True, want_case=True)
+    for sig, detail, what in viol:
+        print(what)
+        print('   ', json.dumps(detail, default=str)[:500])
+    print('REPRODUCED' if viol else 'not reproduced')
+    return 1 if viol else 0
+
+
 def replay(ctx, data):
     load_local_findings(ctx)
     w = data.get('input') or {}
+    if w.get('kind') == 'monitor':
+        return replay_monitor(ctx, w)
     if w.get('kind') != 'history' and w.get('policy_document') is not None:
         P_spec, P_engine = load_document(ctx, w['policy_document'])
         eng = kdrv.Engine(policies=P_engine, workdir=ctx.work)
@@ -1268,6 +1527,7 @@ def run(ctx):
     finally:
         eng.close()
     histories(ctx)
+    monitor_histories(ctx)
     bad = ctx.run_cases('policy_file_loader', HEADER_C, _loaded_cases, 'chk_loaded', shard=10,
                         what='load_document (Policy/PolicyFile.v) vs the dict built by kmip.core.policy.read_policy_from_file, and '
                              'document_meaning vs the harness reading of the document, structurally, for every policy document used in this run')
